@@ -25,7 +25,7 @@ import encl_check as EC
 from encl_check import RNDS, mp, mk, tup, dy_of, guarded, is_finite_tuple, libelefun, libmpf
 from encl_ops import ask, acc_decide, encl_frac
 
-LEVEL = "proof"
+LEVEL = "translation_validation"
 LEAN_MODULES = ["Props.C13"]
 ASSUMPTIONS = [
     "exactness is decided per sampled input (perfect powers, half-integers, special points; all rounding modes, precisions "
